@@ -49,6 +49,8 @@ def strategy_case(draw):
         case["RE"] = draw(gen.ranks(d, 3))
     if draw(st.floats(0, 1)) < 0.3:
         case["x0_R"] = draw(gen.ranks(d, 4))
+    elif draw(st.floats(0, 1)) < 0.15:
+        case["x0_is_rhs"] = True        # amen_solve(A, b, x0=b): the right-hand side as initial guess
     return case
 
 
@@ -149,6 +151,9 @@ def execute(case):
     if "x0_R" in case:
         ck.label("x0")
         x0 = T.TT(core.make_cores({"N": N, "R": case["x0_R"], "dt": "f64", "mode": "gauss", "seed": case["seed"] + 7}))
+    if case.get("x0_is_rhs") and x0 is None:
+        x0 = b
+        ck.label("x0", "x0_is_rhs")
     torch.manual_seed(case["lib_seed"])
     x = lib(lambda: T.solvers.amen_solve(A, b, x0=x0, eps=eps, preconditioner=case["prec"], max_full=case["max_full"],
                                         local_solver=case["local_solver"], use_cpp=False, verbose=False,
